@@ -86,3 +86,17 @@ package codegen
 //@   mode bv
 //@   tags C16
 //@   at isKeyword assert [on-sanitized] arg0 == escaped
+
+// ---- when a switch case needs its own `break;` (C05) -----------------------------------------------
+//
+// WGSL switch clauses do not fall through. The writer closes every clause with
+// `break;` unless the clause already ends in a statement that leaves it on every
+// path: the last statement is break, continue, return or discard - nothing weaker.
+//
+//@ func blockEndsWithTerminator
+//@   mode bv
+//@   tags C05
+//@   ensures [empty] len(block) == 0 ==> !result
+//@   ensures [def] len(block) > 0 ==> (result <==> (is(block[len(block)-1].Kind, ir.StmtBreak) || is(block[len(block)-1].Kind, ir.StmtContinue) || is(block[len(block)-1].Kind, ir.StmtReturn) || is(block[len(block)-1].Kind, ir.StmtKill)))
+//@   pure
+//@   nopanic
